@@ -1144,3 +1144,10 @@ package mail
 //@ fn d0(e ref) int = errtext(rooterr(e))[0]
 //@ func mail.enhancedStatusCode (err, supported) (result)
 //@   ensures[C20:esc-iff-the-reply-began-with-one] (err != nil ==> len(errtext(rooterr(err))) >= 1) ==> result == ((err != nil && supported && (d0(err) == 50 || d0(err) == 52 || d0(err) == 53) && escprefix(errtext(rooterr(err)))) ? esctok(errtext(rooterr(err))) : "")
+
+// C08 (continued): the multipart/signed wrapper is written with a boundary of its own - the one randomBoundary has just
+// produced for this render, never a cached or caller-fixed one: a delimiter it shared with a layer inside the signed
+// entity would end the first body part early (digest mismatch) and close the wrapper before the signature part
+//@ ghost field lastrnd string
+//@ at mail.msgWriter.writeMsg mail.randomBoundary#1 after ghost[C08:g] world.lastrnd = r0
+//@ at mail.msgWriter.writeMsg mail.msgWriter.startMP#1 before assert[C08:signed-layer-boundary-of-its-own] arg2 == world.lastrnd
